@@ -1,21 +1,16 @@
-# Per-property configuration of the driver: which test binary / Test function decides the
-# property, its level, and the texts that go into the evidence file.
+# Per-property configuration of the driver: which test binary / Test function decides a
+# property, its level, and the texts that go into the evidence file and MANIFEST.json.
+# One file per harness family under propsd/, each defining a dict PROPS.
+import glob, os, runpy
+
 PROPS = {}
-# Properties not claimed, with the reason (anything not in PROPS and not here gets a default text).
+# Properties not claimed, with the reason (anything neither in PROPS nor here gets a default text).
 NOT_APPLICABLE = {}
 # Commits in /repo that add verif-tagged hook files.
-HOOK_COMMITS = []
+HOOK_COMMITS = ["d8eee8ea"]
 
-PROPS["C19"] = {
-    "level": "exploration",
-    "exhaustive": {"quick": True, "thorough": True},
-    "rule": "exhaustive enumeration of 32 capability tuples (OS in {Linux,Windows,Mac,Any} x network x direct-FS x running-system) x every plugin of the three registries, plus every registry key, group name and plugin name; one evaluation per (check, tuple, plugin/name); non-trivial = the plugin's requirement is non-empty (filter checks) or the check concerns name resolution; distinct by the case JSON",
-    "assumptions": ["plugin.Capabilities values OSUnix / NetworkAny are requirement-only values and are not generated as environment capabilities",
-                    "group names are the ones hard-coded in the three list packages at the pinned commit; their expected members come from the exported group maps"],
-    "engine": "enumeration",
-    "technique": "exhaustive enumeration against an independent restatement of requirement satisfaction",
-    "level_text": "Complete enumeration of the finite space the property quantifies over (all capability tuples x the whole plugin registry x all names) against an independent oracle; at the pinned registry this decides the property, not samples it.",
-    "level_note": "Trusted: the harness's 12-line restatement of 'environment satisfies requirement'; the list of group names is copied from the list packages.",
-    "legs": [{"fam": "plugfam", "run": "^TestC19$"}],
-    "timeout": {"quick": 600, "thorough": 600},
-}
+for _f in sorted(glob.glob(os.path.join(os.path.dirname(os.path.abspath(__file__)), "propsd", "*.py"))):
+    _ns = runpy.run_path(_f)
+    PROPS.update(_ns.get("PROPS", {}))
+    NOT_APPLICABLE.update(_ns.get("NOT_APPLICABLE", {}))
+PROPS = dict(sorted(PROPS.items()))
